@@ -112,7 +112,8 @@ class C12(Prop):
         # (harness/tools/partition_selftest.py checks: union of the shards = the full enumeration, nothing twice.)
         crng = random.Random('%s:%s:%s:common' % (getattr(self, 'seed', 0), self.id, tier))
         i = 0
-        for c in itertools.chain(self.gen_fresh(crng, big), self.gen_select(crng, big), self.gen_conv(crng, big),
+        for c in itertools.chain(self.gen_fresh(crng, big), self.gen_select(crng, big), self.gen_frombytes(crng, big),
+                                 self.gen_hist(crng, big), self.gen_conv(crng, big),
                                  self.gen_scripts(crng, big), self.gen_cross(crng, big), self.gen_segwit(crng, big),
                                  self.gen_b58(crng, big), self.gen_strings(crng, big), self.gen_stale(crng, big)):
             i += 1
@@ -186,6 +187,77 @@ class C12(Prop):
                 yield mk('c12.parse', h, tx(text), tag='fresh')
             yield mk('c12.stale', h, std_script('P2WPKH', h20).hex(), 'regtest', tag='fresh')
             yield mk('c12.stale', h, std_script('P2PKH', h20).hex(), 'testnet', tag='fresh')
+
+    def gen_frombytes(self, rng, big):
+        """direct from_bytes calls of every address class: every chain's version bytes, foreign ones, the default
+        argument; witness versions and program lengths that match no class"""
+        vers = [0, 5, 111, 196, 128, 239, 1, 4, 6, 110, 112, 195, 197, 255, 256, 257, -1, 1000]
+        for chain in CHAINS:
+            for n in (20, 0, 19, 21, 32):
+                d = bytes(rng.randrange(256) for _ in range(n))
+                for v in vers:
+                    for cls in ('B58', 'P2SH', 'P2PKH'):
+                        yield mk('c12.frombytes', self.hist(rng, chain), cls, v, d.hex(), tag='frombytes')
+                yield mk('c12.frombytes', chain, 'P2SH', 'none', d.hex(), tag='frombytes')
+                yield mk('c12.frombytes', chain, 'P2PKH', 'none', d.hex(), tag='frombytes')
+            for wv in (0, 1, 2, 15, 16, 17, 255):
+                for n in (0, 1, 2, 19, 20, 21, 31, 32, 33, 40, 41):
+                    d = bytes(rng.randrange(256) for _ in range(n))
+                    for cls in (('B32', 'P2WSH', 'P2WPKH') if (wv in (0, 1, 17) or big) else ('B32',)):
+                        yield mk('c12.frombytes', chain, cls, wv, d.hex(), tag='frombytes')
+
+    FLUSH = ('sel:mainnet', 'parse:' + '1111111111111111111114oLvT2'.encode().hex())
+    OBS = 'sbkvreh'
+
+    def gen_hist(self, rng, big):
+        """c12.seq: parsing / converting right after chain switches, after a failed parse under another chain, after
+        SelectParams of an unknown name, with other flags; one address instance through every ordered pair of
+        observers, also across a chain switch; identical (`=`) and equal-but-not-identical argument objects"""
+        def texts(chain):
+            return {t: self.addr_text(chain, t, bytes(rng.randrange(256) for _ in range(PLEN[t]))) for t in TMPL}
+        for a in CHAINS:
+            ta = texts(a)
+            for b in CHAINS + ('nonsense',):
+                tb = texts(b if b in CHAINS else 'regtest')
+                for t in TMPL:
+                    A, Bt = 'parse:' + tx(ta[t]), 'parse:' + tx(tb[t])
+                    # valid, switch, same text again (now judged by the new chain), the new chain's text
+                    yield mk('c12.seq', *self.FLUSH, 'sel:' + a, A, 'o:sk', 'sel:' + b, '=' + A, A, Bt, 'o:sk', tag='hist-switch')
+                    # failed parse under another chain, then the valid one; then switch and the failed one again
+                    yield mk('c12.seq', *self.FLUSH, 'sel:' + a, Bt, A, 'sel:' + b, '=' + Bt, Bt, 'sel:' + a, '=' + A, tag='hist-failed')
+                    # an unknown chain name in between changes nothing
+                    yield mk('c12.seq', *self.FLUSH, 'sel:' + a, 'sel:nonsense', A, 'sel:' + b, 'sel:', Bt, tag='hist-badname')
+            # observers: every ordered pair on one instance, and the same pair with a chain switch in between
+            for t in TMPL:
+                spk = 'spk:' + std_script(t, bytes(rng.randrange(256) for _ in range(PLEN[t]))).hex()
+                for x in self.OBS:
+                    for y in self.OBS:
+                        if x != y:
+                            yield mk('c12.seq', *self.FLUSH, 'sel:' + a, spk, 'o:' + x + y + x, tag='hist-obs')
+                    for b in ('regtest', 'mainnet', 'nonsense'):
+                        yield mk('c12.seq', *self.FLUSH, 'sel:' + a, spk, 'o:' + x, 'sel:' + b, 'o:' + x + 'sk', 'sel:' + a, 'o:' + x,
+                                 tag='hist-obs-switch')
+                for _ in range(60 if big else 6):
+                    yield mk('c12.seq', *self.FLUSH, 'sel:' + a, spk, 'o:' + ''.join(rng.sample(self.OBS, 7)), tag='hist-obs')
+            # the P2PKH converter with other keyword arguments on the same script, in every order
+            h20 = bytes(rng.randrange(256) for _ in range(20))
+            pk = b'\x02' + bytes(rng.randrange(256) for _ in range(32))
+            for sc in (b'\x76\xa9\x4c\x14' + h20 + b'\x88\xac', b'\x21' + pk + b'\xac', b'\x76\xa9\x14' + h20 + b'\x88\xac',
+                       b'\x00\x14' + h20, b'\x4c\x21' + pk + b'\xac'):
+                fl = ['p2pkh:%s:%s:%s' % (sc.hex(), nc, bare) for nc in '10' for bare in '10'] + ['spk:' + sc.hex()]
+                for x in fl:
+                    for y in fl:
+                        if x != y:
+                            yield mk('c12.seq', *self.FLUSH, 'sel:' + a, x, y, '=' + x, tag='hist-flags')
+        for _ in range(3000 if big else 300):
+            chains = [rng.choice(CHAINS) for _ in range(2)]
+            tt = [texts(c) for c in chains]
+            pool = (['sel:' + c for c in chains] + ['sel:nonsense'] + ['parse:' + tx(x[t]) for x in tt for t in TMPL]
+                    + ['parse:' + tx(tt[0]['P2PKH'] + '\n'), 'parse:' + tx(''), 'o:' + ''.join(rng.sample(self.OBS, 3)), 'o:sks',
+                       'spk:' + std_script('P2WPKH', bytes(20)).hex(), 'spk:' + std_script('P2SH', b'\xff' * 20).hex()])
+            seq = [rng.choice(pool) for _ in range(rng.randint(3, 8))]
+            seq = [('=' + x) if (k and x in seq[:k] and x[0] in 'ps' and rng.random() < 0.4) else x for k, x in enumerate(seq)]
+            yield mk('c12.seq', *self.FLUSH, *seq, tag='hist-random')
 
     def gen_select(self, rng, big):
         for a in CHAINS + BAD_NAMES:
@@ -312,7 +384,9 @@ class C12(Prop):
                 s = self.addr_text(chain, t, p)
                 alpha = B58 if t in ('P2PKH', 'P2SH') else B32 + '1bcrtBCRT'
                 muts = [s.upper(), s.lower(), s.swapcase(), s[:1].upper() + s[1:], s[:-1] + s[-1].upper(), ' ' + s, s + ' ',
-                        s + '\n', s + s, s[:-1], s[1:], s + 'q', s + '1']
+                        s + '\n', s + s, s[:-1], s[1:], s + 'q', s + '1', s + '\r\n', s + '\t', s + '\x0b', s + '\x0c', s + '\xa0',
+                        s + '\u2028', '\n' + s, s + '\n\n', s + '\x00', s[:-1] + '\n', s.translate({ord('1'): 0xff11}),
+                        s.replace(s[-1], chr(0xff00 + ord(s[-1]) - 0x20)) if 0x21 <= ord(s[-1]) <= 0x7e else s + 'é']
                 for pos in range(len(s)):
                     for ch in (rng.sample(alpha, 6) if not big else alpha):
                         if ch != s[pos]:
@@ -373,6 +447,8 @@ class C12(Prop):
 
     def _impl(self, c):
         op, a = c['op'], c['args']
+        if op == 'c12.seq':
+            return ' ; '.join(self.run_seq(a))
         if op == 'c12.select':
             outs = self.select_all(a[0])
             bitcoin = self.bitcoin
@@ -407,6 +483,16 @@ class C12(Prop):
                 SC.CScript(bytes.fromhex(a[1])), accept_non_canonical_pushdata=a[2] == '1', accept_bare_checksig=a[3] == '1'))
         if op == 'c12.parse':
             return self.show_full(lambda: W.CBitcoinAddress(bytes.fromhex(a[1]).decode('utf-8')))
+        if op == 'c12.frombytes':
+            d = bytes(bytearray(bytes.fromhex(a[3])))
+            v = None if a[2] == 'none' else int(str(int(a[2])))
+            if a[1] in ('P2SH', 'P2PKH'):
+                k = W.P2SHBitcoinAddress if a[1] == 'P2SH' else W.P2PKHBitcoinAddress
+                return self.show_full(lambda: k.from_bytes(d) if v is None else k.from_bytes(d, v))
+            if a[1] == 'B58':
+                return self.show_full(lambda: W.CBase58BitcoinAddress.from_bytes(d, v))
+            k = {'B32': W.CBech32BitcoinAddress, 'P2WSH': W.P2WSHBitcoinAddress, 'P2WPKH': W.P2WPKHBitcoinAddress}[a[1]]
+            return self.show_full(lambda: k.from_bytes(v, d))
         if op == 'c12.stale':
             try:
                 x = W.CBitcoinAddress.from_scriptPubKey(SC.CScript(bytes.fromhex(a[1])))
@@ -416,6 +502,53 @@ class C12(Prop):
                 guarded(lambda: (bitcoin.SelectParams(n), 'ok')[1])
             return '|'.join([self.show_addr(x), guarded(lambda: str(x)), guarded(lambda: bytes(x.to_scriptPubKey()).hex())])
         raise ValueError(op)
+
+    def run_seq(self, steps):
+        """a history in this process, after the reset call SelectParams('mainnet').  Argument objects are re-used
+        identically for steps marked `=` and rebuilt (equal, not identical) otherwise; `o:` observes the last address
+        object created, which is never rebuilt."""
+        bitcoin, W, SC = self.bitcoin, self.W, self.SC
+        bitcoin.SelectParams('mainnet')
+        objs, outs, last = {}, [], [None]
+
+        def made(fn):
+            try:
+                x = fn()
+            except Exception as e:  # noqa: BLE001
+                return 'err:' + exc_family(e)
+            last[0] = x
+            return self.show_addr(x)
+        for st in steps:
+            same = st.startswith('=')
+            k, *ar = st.lstrip('=').split(':')
+            if k == 'sel':
+                outs.append(guarded(lambda: (bitcoin.SelectParams(''.join(list(ar[0]))), 'ok')[1]))
+                continue
+            if k == 'o':
+                x = last[0]
+                if x is None:
+                    outs.append('none')
+                    continue
+                obs = {'s': lambda: str(x), 'b': lambda: bytes(x).hex(), 'k': lambda: bytes(x.to_scriptPubKey()).hex(),
+                       'v': lambda: str(x.nVersion if hasattr(x, 'nVersion') else x.witver), 'r': lambda: repr(x),
+                       'e': lambda: str(x == bytes(x)), 'h': lambda: str(hash(x) == hash(bytes(x)))}
+                outs.append('/'.join(guarded(obs[o]) for o in ar[0]))
+                continue
+            key = (k == 'parse', ar[0])
+            if same and key in objs:
+                o = objs[key]
+            else:
+                raw = bytes.fromhex(ar[0])
+                o = ''.join(list(raw.decode('utf-8'))) if k == 'parse' else SC.CScript(bytes(bytearray(raw)))
+                objs[key] = o
+            if k == 'parse':
+                outs.append(made(lambda: W.CBitcoinAddress(o)))
+            elif k == 'spk':
+                outs.append(made(lambda: W.CBitcoinAddress.from_scriptPubKey(o)))
+            else:
+                outs.append(made(lambda: W.P2PKHBitcoinAddress.from_scriptPubKey(
+                    o, accept_non_canonical_pushdata=ar[1] == '1', accept_bare_checksig=ar[2] == '1')))
+        return outs
 
     def nontrivial(self, c, io):
         return any(x not in ('', 'mainnet') for x in c['args'])
